@@ -11,7 +11,8 @@ def run(chk):
                 "verify (also after a JSON round trip) and embed the accumulator index the spec says it was made against - including proofs made after UpdateCommit "
                 "refreshed a cached commitment -, and 17 manipulations of the proof (commitments multiplied by 4 or replaced by a representative of 0 mod n, a proof built from scratch by the holder - revoked or not - around Cr = Cu = 0 mod n with zeros hashed for the verifier's reconstructed commitments and the issuer's newest accumulator embedded, each response, alpha response, older/newer/other-chain/garbled "
                 "accumulator, transplanted non-revocation part of another holder, stripped part, witness attribute disclosed) which must all be rejected. "
-                "Known finding D10 is constructed deliberately and reported as KNOWN-FINDING. Non-trivial = distinct history.")
+                "Plus refresh chains: all histories of 9 (10) operations over {prepare, revoke other, update, prove} that end in a proof whose cached commitment went through at least two "
+                "UpdateCommit refreshes. Known finding D10 is constructed deliberately and reported as KNOWN-FINDING. Non-trivial = distinct history.")
     chk.assumptions = ["soundness of the Sigma protocol itself is assumed (generic group); manipulations are structural/algebraic",
                        "freshness policy (is the embedded accumulator recent enough) is the verifier application's business",
                        "a same-index accumulator re-signed at another time is the same accumulator (don't-care)"]
@@ -30,6 +31,17 @@ def run(chk):
         deep = sorted(set(gs.tagged_raw_json("H")))
         chk.add_tlc(gs, "NonRevGen", "NonRev.mc.thorough.cfg", "%d sampled depth-6 histories (simulation)" % len(deep))
         hs = hs + deep
+    # refresh chains: a cached commitment refreshed at least twice before it is used (needs >= 7 operations)
+    rc = "NonRev.refresh.%s.cfg" % T
+    gr = vplib.tlc_mc("NonRevGen", rc, workers=1, timeout=900)
+    chains = sorted(set(gr.tagged_raw_json("H")))
+    chk.add_tlc(gr, "NonRevGen", rc, "%d histories ending in a proof whose cached commitment was refreshed >= 2 times" % len(chains))
+    if len(chains) < 100:
+        raise vplib.Machinery("refresh-chain generator produced only %d histories" % len(chains))
+    chp = os.path.join(vplib.sub("c11"), "chains.ndjson")
+    open(chp, "w").write("\n".join(chains) + "\n")
+    res = vplib.vh("nr", ["replay", "--in", chp, "--tier", T, "--seed", str(chk.seed), "--n", str(len(chains))], timeout=3300)
+    chk.add_replay(res, "refresh_chains")
     cp = os.path.join(vplib.sub("c11"), "hist.ndjson")
     open(cp, "w").write("\n".join(hs) + "\n")
     n = 6000 if thorough else len(hs)
